@@ -105,7 +105,9 @@ fn adjust_value(mut v: Value, clip: Option<f32>, adjust: f32) -> (r: Value)
                         v
 }
 
-// (2) the `.filter(..)` closure: the test applied to an Ok value
+// (2) the `.filter(..)` closure: the test applied to an Ok value.  Two spellings of the closure are carved: the
+// repository's `x.as_ref().map_or(D, |v| TEST)` and `matches!(x, Ok(v) if TEST)`; TEST is what is judged here, what
+// happens to an Err item (D resp. `false`: `matches!` is false for everything the pattern does not match) is (4).
 fn keep_value(v: &Value, threshold: f32) -> (keep: bool)
     ensures
         
@@ -145,7 +147,8 @@ fn adjust_item(x: Result<Value, MergingValuesError>, clip: Option<f32>, adjust: 
                     })
 }
 
-// (4) whole body of the `.filter(move |x| ..)` closure
+// (4) whole body of the `.filter(move |x| ..)` closure, whatever its spelling (`matches!(x, Ok(v) if TEST)` is
+// accepted by Verus with its real meaning: true iff the pattern matches AND the guard holds, so false on Err)
 fn keep_item(x: &Result<Value, MergingValuesError>, threshold: f32) -> (keep: bool)
     ensures
         
